@@ -158,7 +158,10 @@ def _poly(h, name):
     s = float(h.cfg.get("scale", 1.0))
     base = np.array(POLYGONS[name])
     yi = 0 if h.cfg["swap"] else 1
-    off = [h.real("off0", -1.0, 1.0), h.real("off1", -1.0, 1.0)]
+    # position of the polygon: anywhere, including entirely at negative abscissae and / or negative ordinates
+    # (temperatures, a normal variable with negative mean)
+    lo_off = -12.0 if h.cfg.get("anywhere") else -1.0
+    off = [h.real("off0", lo_off, 1.0), h.real("off1", lo_off, 1.0)]
     rows = []
     for k in range(len(base)):
         r = [s * (float(base[k, 0]) + off[0]), s * (float(base[k, 1]) + off[1])]
@@ -299,6 +302,9 @@ def obligations(tier):
             for sc in (((1.0, 1e-4) if poly == "pentagon" else (1.0,)) if tier == "quick" else scales):
                 yield ("design_list", h_design_list, {"polygon": poly, "swap": swap, "probes": pr, "scale": sc},
                        {"max_paths": 20000})
+                if sc == 1.0:
+                    yield ("design_list", h_design_list,
+                           {"polygon": poly, "swap": swap, "probes": pr, "scale": sc, "anywhere": True}, {"max_paths": 20000})
                 yield ("design_any_abscissa", h_design_any_abscissa, {"polygon": poly, "swap": swap, "scale": sc},
                        {"max_paths": 20000})
                 for steps in (None, 4):
